@@ -31,8 +31,8 @@ PROPS["C18"] = dict(
          "first/second draw is 0, 2^63-1, 2^63, 2^64-1, ..., first draws next to the probability threshold, random pairs, "
          "config acceptance grid; non-trivial = modified responses and threshold/edge cases (tag != unmodified), distinct op lines",
     trusted=["Gen/Random.lean is produced by harness/tr (go/ast translator, ~350 lines) from middleware/pkg/random on every run",
-             "modelled not verified: float32 division/comparison (exact for 0<=v<2^24, argued in Model/VarInterval.lean), time.Duration arithmetic without overflow"],
-    assumptions=["max_increase_delta < 2^63 and interval + delta seconds does not overflow int64 nanoseconds"],
+             "modelled not verified: float32 division/comparison (exact for 0<=v<2^24, argued in Model/VarInterval.lean), time.Duration arithmetic is int64 with wrap-around in the model (wrap64), as in Go"],
+    assumptions=["configured interval and min interval between 0 and intervalLimit = 2^63-1 ns - MaxInt32 s (about 224 years)"],
 )
 
 
